@@ -8,9 +8,10 @@
   variable).
 
   The checker is a LITERAL transcription of the C control flow.  The C computes in MPI_Offset
-  (signed 64 bit); the three additions / one multiplication it performs are taken from an `Arith`
-  record so that the same text can be read over unbounded `Int` (`exact`) and over wrap-around
-  64-bit arithmetic (`c64`, what the compiled code does on x86-64).
+  (signed 64 bit); the two arithmetic tests of check_EEDGE are taken from an `Arith` record so that
+  the same text can be read over unbounded `Int` (`exact`), over wrap-around 64-bit arithmetic
+  (`c64`, what the compiled original code does on x86-64) and in the repaired division form
+  (`divForm`).
   Core Lean only.
 -/
 namespace PnVerif.Scs
@@ -22,17 +23,32 @@ def NC_ESTRIDE : Int := -58
 def NC_ENEGATIVECNT : Int := -210
 def NC_MAX_UINT : Int := 4294967295
 
-/-- the arithmetic the checker uses -/
-structure Arith where
-  add : Int → Int → Int
-  mul : Int → Int → Int
-
-def exact : Arith := ⟨fun a b => a + b, fun a b => a * b⟩
-
 /-- two's complement wrap-around of a mathematical integer to a signed 64-bit value -/
 def wrap64 (x : Int) : Int := (x + 9223372036854775808) % 18446744073709551616 - 9223372036854775808
 
-def c64 : Arith := ⟨fun a b => wrap64 (a + b), fun a b => wrap64 (a * b)⟩
+/-- the two arithmetic tests of check_EEDGE, as a parameter: the same checker text is read
+    * over unbounded integers (`exact`),
+    * over wrap-around 64-bit arithmetic (`c64`: what the compiled original code does), and
+    * in the repaired, overflow-free division form (`divForm`, patch F15-check_EEDGE.diff). -/
+structure Arith where
+  /-- `count > shape || start + count > shape`   (start count shape) -/
+  edge0 : Int → Int → Int → Bool
+  /-- `count > 0 && start + (count-1)*stride >= shape`   (start count stride shape) -/
+  edgeS : Int → Int → Int → Int → Bool
+
+def exact : Arith :=
+  ⟨fun s c sh => decide (c > sh ∨ s + c > sh),
+   fun s c t sh => decide (c > 0 ∧ s + (c + -1) * t ≥ sh)⟩
+
+def c64 : Arith :=
+  ⟨fun s c sh => decide (c > sh ∨ wrap64 (s + c) > sh),
+   fun s c t sh => decide (c > 0 ∧ wrap64 (s + wrap64 (wrap64 (c + -1) * t)) ≥ sh)⟩
+
+/-- repaired check_EEDGE: `count > shape - start` and
+    `count > 1 && stride > 0 && stride > (shape - 1 - start) / (count - 1)` -/
+def divForm : Arith :=
+  ⟨fun s c sh => decide (c > sh - s),
+   fun s c t sh => decide (c > 1 ∧ t > 0 ∧ t > (sh - 1 - s) / (c - 1))⟩
 
 def fits64 (x : Int) : Prop := -9223372036854775808 ≤ x ∧ x < 9223372036854775808
 instance (x : Int) : Decidable (fits64 x) := by unfold fits64; infer_instance
@@ -73,11 +89,10 @@ def checkEINVALCOORDS (strict : Bool) (start count shape : Int) : Int :=
 
 /-- check_EEDGE; `stride = none` is the NULL pointer -/
 def checkEEDGE (A : Arith) (start count : Int) (stride : Option Int) (shape : Int) : Int :=
-  if count > shape ∨ A.add start count > shape then NC_EEDGE
+  if A.edge0 start count shape then NC_EEDGE
   else match stride with
-    | none => if count > shape ∨ A.add start count > shape then NC_EEDGE else NC_NOERR
-    | some s =>
-      if count > 0 ∧ A.add start (A.mul (A.add count (-1)) s) ≥ shape then NC_EEDGE else NC_NOERR
+    | none => if A.edge0 start count shape then NC_EEDGE else NC_NOERR
+    | some s => if A.edgeS start count s shape then NC_EEDGE else NC_NOERR
 
 /-- `for (i=firstDim; i<ndims; i++) { len = count==NULL ? 1 : count[i]; err = check_EINVALCOORDS(..) ; if (err) return err; }` -/
 def coordLoop (strict hasCount : Bool) : List D → Int
